@@ -15,7 +15,7 @@ import (
 
 func TestC11(t *testing.T) {
 	rapid.Check(t, func(t *rapid.T) {
-		sch := genSchema(t, SchemaCfg{Key: 0, Merges: true, MinCols: 2, MaxCols: 6})
+		sch := genSchema(t, SchemaCfg{Key: 0, Merges: true, EnsureLenMerge: true, MinCols: 2, MaxCols: 6})
 		mc := NewMachine("C11", sch, column.Options{})
 		defer mc.Close()
 		defer mc.Guard(t)
